@@ -418,3 +418,78 @@ def c17(tier, seed):
                         "non-numeric clocks, irregular whitespace, well-formed text of an insane position) produce no verdict either way"]
     shutil.rmtree(d, ignore_errors=True)
     run.finish()
+
+
+# --------------------------------------------------------------------------- C12
+
+@check("C12")
+def c12(tier, seed):
+    import c12 as sweepmod
+    import random
+    run = core.Run("C12", tier, seed)
+    vh = prepare()
+    binary = core.build_bin(False)
+    quick = tier == "quick"
+    rnd = random.Random(seed)
+    game.mc_chess(run, [START, EPR] if quick else ALLROOTS, 2 if quick else 3, ["InvSane", "InvUciInjective"], workers=12, tag="C12")
+    d = game.trace_dir("C12")
+    # (a) in-process: every legal move's text reads back as the same move (rt queries of play traces)
+    pj = game.play_traces(run, vh, "C12", 14 if quick else 42, 2 if quick else 6, 40 if quick else 100, 0, seed)
+    # (b) positions for the all-strings sweep: roots, FIDE-style texts, TLC family members, states of recorded games (with prefix)
+    cases = [(f, []) for f in gen.read_roots() + gen.read_roots(os.path.join(core.VERIF, "lib", "fide_roots.txt"))]
+    famf = families(run, [("EP", 20000), ("CASTLE", 2000), ("PROMO", 2000)] if quick else [("EP", 1200), ("CASTLE", 80), ("PROMO", 100), ("KXK", 3000)], seed, "C12")
+    for f in famf:
+        cases += [(l.strip(), []) for l in open(f) if l.strip()]
+    hist = []
+    for path, _ in pj:
+        root, mvs = None, []
+        with open(path) as f:
+            for l in f:
+                e = json.loads(l)
+                if e["ev"] == "new":
+                    root, mvs = "".join(e["fen"]), []
+                elif e["ev"] == "push" and e.get("hist"):
+                    mvs.append(e["mv"])
+                    if len(mvs) <= (8 if quick else 30) and rnd.random() < (0.2 if quick else 0.25):
+                        hist.append((root, list(mvs)))
+    cases += hist
+    cases.append(("startpos", []))
+    cases.append(("startpos", "e2e4 a7a6 e4e5 d7d5".split()))
+    if quick and len(cases) > 70:
+        fixed = cases[:31]
+        rest = cases[31:]
+        rnd.shuffle(rest)
+        cases = fixed + rest[:39]
+    chunks = [cases[i::core.NPROC] for i in range(core.NPROC)]
+
+    def mk(ic):
+        i, chunk = ic
+        out = os.path.join(d, "pm-%d.ndjson" % i)
+        with open(out, "w") as f:
+            for fen, pre in chunk:
+                f.write(json.dumps(sweepmod.sweep(binary, fen, pre)) + "\n")
+        return (out, "position <fen> moves <prefix> s + show on the real binary for all 20480 move-shaped strings s (%d positions, first: %s %s)" % (len(chunk), chunk[0][0], " ".join(chunk[0][1])))
+    jobs = core.pmap(mk, [(i, c) for i, c in enumerate(chunks) if c])
+    game.judge_traces(run, jobs + pj, {"C12"})
+    nacc = 0
+    for path, _ in jobs:
+        for l in open(path):
+            e = json.loads(l)
+            nacc += len(e.get("acc", []))
+    e = json.loads(open(jobs[0][0]).readline())
+    run.sample({"driver": jobs[0][1], "fen": "".join(e["fen"]), "prefix": e["pre"], "accepted": [a[0] for a in e["acc"]][:12],
+                "shown_after_first": e["acc"][0][1]["fl"] if e["acc"] else None, "distinct_positions_shown_after_refusal": [r["fl"] for r in e["rej"]]})
+    run.cov["evaluations"] = len(cases) * len(sweepmod.UNIVERSE)
+    run.cov["distinct_nontrivial"] = len(set((c[0], tuple(c[1])) for c in cases))
+    run.cov["positions_swept"] = len(cases)
+    run.cov["strings_per_position"] = len(sweepmod.UNIVERSE)
+    run.cov["strings_accepted"] = nacc
+    run.cov["positions_with_history_prefix"] = len([c for c in cases if c[1]])
+    run.cov["rule"] = ("(a) every legal move of every state of recorded games: text -> from_uci_notation -> same move; (b) for each position "
+                       "(roots, FIDE-style FENs, TLC family members, states of recorded games given as root + move prefix) ALL 20480 strings "
+                       "of move shape are sent to the real binary as `position ... moves <prefix> s`, `show`; TLC requires accepted <=> "
+                       "s in LegalTexts(pos), accepted => shown = Apply(pos, m), refused => nothing or the unchanged position shown. "
+                       "distinct_nontrivial counts distinct (position, prefix) cases")
+    run.assumptions += ["upper-case promotion letters and over-long strings are outside the universe of move-shaped strings (grey)"]
+    shutil.rmtree(d, ignore_errors=True)
+    run.finish()
